@@ -59,6 +59,12 @@ class Color(enum.Enum):
 Color2 = enum.Enum('Color2', {'1e5': 1, 'a b': 2, 'ok': 3})   # odd names
 
 
+class Unit(str, enum.Enum):
+    """the str-mixin idiom: an Enum first, a str second."""
+    metre = 'm'
+    second = 's'
+
+
 class Ident(str):
     pass
 
@@ -106,6 +112,14 @@ class Loose:
         self.a, self.b = a, b
         self._yatiml_extra = (OrderedDict() if _yatiml_extra is None
                               else _yatiml_extra)
+
+
+class Mid:
+    """_yatiml_extra is not the last parameter."""
+    def __init__(self, a: int, _yatiml_extra: OrderedDict, z: int = 0,
+                 unit: Optional[Unit] = None) -> None:
+        self.a, self._yatiml_extra, self.z, self.unit = (
+            a, _yatiml_extra, z, unit)
 
 
 class Opt:
@@ -331,6 +345,12 @@ MODELS = [
     ('derived', Derived, [Derived, Base], [
         ('r', [lambda: Derived(1, 'q'),
                lambda: Derived(1, 'q', [Base(2), Derived(3, 'w')])]),
+    ]),
+    ('mid', Mid, [Mid, Unit], [
+        ('extra', [lambda: Mid(1, OrderedDict()),
+                   lambda: Mid(1, OrderedDict([('x1', 1), ('x2', [2])]), 5),
+                   lambda: Mid(1, OrderedDict([('b', 'v')]), 0, Unit.metre)]),
+        ('unit', [lambda u=u: Mid(2, OrderedDict(), 1, u) for u in Unit]),
     ]),
     ('top_list', List[Union[int, str]], [], [
         ('v', [lambda: [], lambda: [1, 'a', 2],
